@@ -250,11 +250,52 @@ func runC18(c *core.Ctx) {
 			c.Sample("substitution", map[string]any{"dictionary": pairs, "valid_names": valid, "layout_steps0": l.Steps[0], "reference_steps0": want.Steps[0]})
 		}
 	}
+	c18NameSweep(c, &errorsSeen)
 	c18Sequences(c)
 	c.Obs("cases_with_effective_substitution", substituted)
 	c.Obs("cases_invalid_name_rejected", errorsSeen)
 	c.Obs("cases_without_effect", unchanged)
 	c18EndToEnd(c)
+}
+
+// c18NameSweep: every ASCII character alone, between letters, in front and at the end of a
+// parameter name: accepted iff it is a letter, a digit, '_' or '-'.
+func c18NameSweep(c *core.Ctx, errorsSeen *int64) {
+	if c.Shard != 2%c.NShards {
+		return
+	}
+	l := c18Layout(c.Rand("c18-sweep"))
+	okNames := int64(0)
+	for b := 0; b < 128; b++ {
+		ch := string(rune(b))
+		legal := b >= 'a' && b <= 'z' || b >= 'A' && b <= 'Z' || b >= '0' && b <= '9' || b == '_' || b == '-'
+		for fi, name := range []string{ch, "A" + ch + "B", ch + "A", "A" + ch} {
+			id := fmt.Sprintf("name-sweep/0x%02x/%d", b, fi)
+			if !c.Want(id) {
+				continue
+			}
+			// next to a valid name, too
+			for _, d := range []map[string]string{{name: "v"}, {"GOOD": "g", name: "v"}} {
+				var err error
+				if c.Guard(id, "SubstituteParameters", map[string]any{"name": name}, func() { _, err = intoto.SubstituteParameters(l, d) }) {
+					continue
+				}
+				c.Eval(1)
+				switch {
+				case legal && err != nil:
+					c.Violation(fmt.Sprintf("parameter name made of legal characters rejected (character 0x%02x)", b), id, map[string]any{"name": name, "error": err.Error()})
+				case !legal && err == nil:
+					c.Violation(fmt.Sprintf("parameter name with the illegal character 0x%02x (%q) accepted", b, ch), id, map[string]any{"name": name})
+				case legal:
+					okNames++
+				default:
+					*errorsSeen++
+				}
+			}
+			c.Class("name-sweep", b, fi)
+		}
+	}
+	c.Obs("legal_names_of_the_sweep_accepted", okNames)
 }
 
 // c18Sequences: substitution is a function of its arguments only - a dictionary
@@ -408,7 +449,7 @@ func init() {
 	core.Register(&core.Property{
 		ID:    "C18",
 		Level: "exploration",
-		Rule: "seeded layouts whose rule tokens, command tokens, run tokens and (as decoys) names, readme, expires, pubkeys, keys and certificate constraints are glued from the pieces { } A B _ - x {A} {B} {AB} {{A}} {A}{B} {} {C} {A B} {a} {A-1} {x_y}; dictionaries of 0-6 entries with values that contain markers, braces and empty strings, invalid names (space, dot, brace, empty, newline, slash, $); every dictionary is rebuilt 8x in shuffled insertion order; the whole returned layout is compared with the reference substitution (one left-to-right scan, the four field families only). Sequences: families of dictionaries whose glued names/values coincide, applied in 4 orders x 3 rounds in one process. End-to-end: 11 dictionaries (two of them with values that are markers of other supplied parameters, where a second pass would flip the verdict or rename the file the inspection creates) x 2 wrappers x 2 entry points on a chain whose rules/command/run contain markers: verdict and executed inspection command must equal those of the pre-substituted re-signed layout. " +
+		Rule: "seeded layouts whose rule tokens, command tokens, run tokens and (as decoys) names, readme, expires, pubkeys, keys and certificate constraints are glued from the pieces { } A B _ - x {A} {B} {AB} {{A}} {A}{B} {} {C} {A B} {a} {A-1} {x_y}; dictionaries of 0-6 entries with values that contain markers, braces and empty strings, invalid names (space, dot, brace, empty, newline, slash, $; plus a sweep of every ASCII character alone / inside / in front / at the end of a name, alone and next to a valid name); every dictionary is rebuilt 8x in shuffled insertion order; the whole returned layout is compared with the reference substitution (one left-to-right scan, the four field families only). Sequences: families of dictionaries whose glued names/values coincide, applied in 4 orders x 3 rounds in one process. End-to-end: 11 dictionaries (two of them with values that are markers of other supplied parameters, where a second pass would flip the verdict or rename the file the inspection creates) x 2 wrappers x 2 entry points on a chain whose rules/command/run contain markers: verdict and executed inspection command must equal those of the pre-substituted re-signed layout. " +
 			"non-trivial = the reference substitution changes the layout; distinct = hash of (layout, dictionary)",
 		Assumptions: []string{"parameter names with non-ASCII letters are not judged (the statement says 'letters')", "nil and empty lists are considered equal when comparing layouts"},
 		Workers:     func(string) int { return 16 },
